@@ -29,6 +29,9 @@ def structures(ctx):
         p = gen2d.layout(rng, k, maxlen=rng.choice([1, 2, 4, 8]), maxgap=rng.choice([0, 1, 3]))
         if len(p) <= 300:
             yield ("layout", gen2d.seq_for(rng, len(p)), p)
+    for _ in range(6 if ctx.quick else 60):
+        p = gen2d.many_stems(rng, rng.randint(9, 14))
+        yield ("many-stems", gen2d.seq_for(rng, len(p)), p)
     for k, length in ((2, 3), (5, 2), (12, 1), (29, 1), (30, 1), (31, 1), (32, 2)):
         p = gen2d.ladder(k, length, gap=1)
         yield (f"ladder{k}", gen2d.seq_for(rng, len(p)), p)
